@@ -163,6 +163,8 @@ def run(tier, seed):
              fx(0.0, 0.5, 1.0, [-8.0, 8.0], max_steps=-1, max_time=37.5 + 6.0, t0=37.5, every=3), fx(1.0, -0.5, 1.0, [[-3.0], [1.0]]),
              # a box open in one dimension (infinite bounds) and a half-open one: only the finite sides can end the run
              dict(ndim=2, dt=1.0, t0=0.0, every=1, max_steps=40, max_time=None, x0=[0.0, 0.0], v=[0.3, 0.5], mass=[2.0, 3.0], bounds=[[-float("inf"), -1.0], [float("inf"), 1.0]], force=[0.0, 0.0]),
+             dict(ndim=2, dt=1.0, t0=0.0, every=1, max_steps=40, max_time=None, x0=[0.0, 3.0], v=[0.25, 0.0], mass=[2.0, 3.0], bounds=[[-1.0, -5.0], [1.0, 5.0]], force=[0.0, 0.0]),
+             dict(ndim=2, dt=1.0, t0=0.0, every=1, max_steps=40, max_time=None, x0=[0.0, -3.0], v=[0.0, 0.5], mass=[2.0, 3.0], bounds=[[-1.0, -5.0], [1.0, 5.0]], force=[0.0, 0.0]),
              fx(0.0, 0.5, 1.0, [[-float("inf")], [2.0]]), fx(0.0, -0.5, 1.0, [[-float("inf")], [2.0]], max_steps=9)]
     for it in range(ncase):
         cls = CLASSES[it % len(CLASSES)]
@@ -246,6 +248,27 @@ def run(tier, seed):
                 if (left_at is None and not ended_by_steps) or (left_at is not None and left_at != len(xs) - 1):
                     bad.append(dict(failed="a trajectory ends at the first step at which it has left the bounding box after having been inside it - never earlier and never later (even-sampling tree member %d: %d snapshots, first inside at %r, first outside afterwards at %r, last x=%r)"
                                            % (t._v["id"], len(xs), first_in, left_at, xs[-1]), case=info)); break
+    # ---- an even-sampling tree grown from a root that was stopped, restarted from its log and only then spawns: every member logs every step once
+    import queue as _qe
+    for it in range(2 if tier == "quick" else 10):
+        dtr = 20.0; qe = _qe.Queue(); common_ = dict(spawn_stack=[3, 2] if it % 2 == 0 else [4], seed_sequence=rng.randrange(2 ** 31), bounds=[[-6.0], [6.0]])
+        mdl = MM["simple"](); k0 = rng.uniform(10.0, 14.0)
+        first = EvenSamplingTrajectory(mdl, [-3.0], [k0], 0, queue=qe, dt=dtr, max_steps=10, **common_)
+        lg0 = first.simulate()
+        if not qe.empty() or len(lg0) != 11:
+            continue          # spawned before the interruption: not the situation probed here
+        rst = EvenSamplingTrajectory.restart(mdl, lg0, queue=qe, max_steps=2000, **common_)
+        done_ = [(rst, rst.simulate())]
+        while not qe.empty():
+            t_ = qe.get(); done_.append((t_, t_.simulate()))
+        res.count("es-tree-from-restarted-root"); res.count("es-tree-from-restarted-root/trajectories", len(done_)); res.case(("estree-restart", it, k0), len(done_) > 1)
+        for j_, (t_, lg_) in enumerate(done_):
+            if float(t_.weight) == 0.0 and len(lg_) < 2: continue
+            tms_ = [float(sn["time"]) for sn in lg_]
+            gaps_ = [b_ - a_ for a_, b_ in zip(tms_, tms_[1:])]
+            if any(abs(g_ - dtr) > 1e-9 for g_ in gaps_):
+                bad.append(dict(failed="the log holds the initial condition and then every step, with times spaced by whole time steps (even-sampling tree grown from a restarted root, member %d: consecutive snapshots %r apart, dt=%r)" % (j_, [g_ for g_ in gaps_ if abs(g_ - dtr) > 1e-9][:3], dtr),
+                                case=dict(k=k0, stack=common_["spawn_stack"]))); break
     # ---- options handed through BatchedTraj reach the trajectories: initial time, limits, stride
     from mudslide.tracer import TraceManager
     for it in range(4 if tier == "quick" else 30):
